@@ -434,6 +434,7 @@ func execStep(w *c12.World, th *thread, s c12.Step, keys map[string]bool, mutate
 // ---- linearizability against the C12 reference map -------------------------------------------------------
 
 type lin struct {
+	wild     map[[2]int]bool // answers ignored by the current search
 	parent   []int
 	ths      []*thread
 	final    []map[string]string
@@ -504,6 +505,13 @@ func (l *lin) search(wt, ws int) bool {
 	return l.dfs(wt, ws)
 }
 
+// searchIgnoring: the same with a whole set of answers ignored
+func (l *lin) searchIgnoring(w map[[2]int]bool) bool {
+	l.wild = w
+	defer func() { l.wild = nil }()
+	return l.search(-1, -1)
+}
+
 func (l *lin) dfs(wt, ws int) bool {
 	all := true
 	for t, th := range l.ths {
@@ -513,7 +521,7 @@ func (l *lin) dfs(wt, ws int) bool {
 		}
 		all = false
 		want, undo := l.apply(th.steps[i])
-		if want == normalize(th.steps[i].Op(), th.outs[i]) || (t == wt && i == ws) {
+		if want == normalize(th.steps[i].Op(), th.outs[i]) || (t == wt && i == ws) || l.wild[[2]int{t, i}] {
 			l.pos[t]++
 			ok := l.dfs(wt, ws)
 			l.pos[t]--
@@ -567,6 +575,24 @@ func (l *lin) classify() string {
 		}
 	}
 	if len(l.culprits) == 0 {
+		// no single answer accounts for the failure: several lookups may each have raced with a definition in an ancestor
+		w := map[[2]int]bool{}
+		for t, th := range l.ths {
+			for i := range th.steps {
+				if l.ancestorGains(t, i) {
+					w[[2]int{t, i}] = true
+				}
+			}
+		}
+		if len(w) > 1 && l.searchIgnoring(w) {
+			for c := range w {
+				l.culprits = append(l.culprits, c)
+			}
+			sort.Slice(l.culprits, func(i, j int) bool {
+				return l.culprits[i][0] < l.culprits[j][0] || (l.culprits[i][0] == l.culprits[j][0] && l.culprits[i][1] < l.culprits[j][1])
+			})
+			return "not-linearizable-ancestor-gains"
+		}
 		return "not-linearizable"
 	}
 	// one unexplainable load/discover that raced with a definition in a proper ancestor accounts for the failure
